@@ -293,12 +293,12 @@ Definition summary (c : config) :=
 
 Example ex_two_workers_three_files :
   summary (run (round_robin 2 40) (init 2 [f_ok 1 2; f_ok 2 0; f_ok 3 4]))
-  = (true, false, true, true, [3; 1; 2], []).
+  = (true, false, true, true, [3; 2; 1], []).
 Proof. vm_compute. reflexivity. Qed.
 
 (* the producer first: it blocks on the full queue, the picks are skipped *)
 Example ex_producer_first :
-  summary (run (repeat 0 10 ++ repeat 1 30 ++ repeat 0 10 ++ repeat 2 5 ++ repeat 0 10)
+  summary (run (repeat 0 10 ++ repeat 1 30 ++ repeat 0 10 ++ repeat 1 10 ++ repeat 0 10 ++ repeat 2 5 ++ repeat 0 10)
                (init 2 [f_ok 1 2; f_ok 2 0; f_ok 3 1]))
   = (true, false, true, true, [3; 2; 1], []).
 Proof. vm_compute. reflexivity. Qed.
@@ -306,7 +306,7 @@ Proof. vm_compute. reflexivity. Qed.
 (* a write fault in the last task: both files of that task are still closed, it raises *)
 Example ex_fault_in_last_task :
   summary (run (round_robin 2 40) (init 2 [f_ok 1 2; f_ok 2 0; f_bad_write 3]))
-  = (true, true, true, true, [1; 2], [3]).
+  = (true, true, true, true, [2; 1], [3]).
 Proof. vm_compute. reflexivity. Qed.
 
 Example ex_close_fault_one_worker :
